@@ -163,15 +163,15 @@ def run_heal(cfg, ch):
             else:
                 last = verdicts[-1] if verdicts else None
                 if last is None or not last.valid or last.structure != s:
-                    v.append((f"heal-{oc.value}-structure-not-from-last-output",
+                    v.append((f"obs:heal-{oc.value}-structure-not-from-last-output",
                               f"structure {s!r} but the last generator output {calls[-1][2]!r:.120} folds to "
                               f"{(last.structure if last is not None and last.valid else None)!r}"))
             if (oc == HealingOutcome.VALID_FIRST_TRY) != (len(calls) == 1):
                 v.append(("heal-first-try-vs-healed-mislabelled", f"outcome {oc.value} after {len(calls)} generator calls"))
             if result.ubiquitin_tagged:
-                v.append(("heal-valid-result-tagged-for-degradation", f"outcome {oc.value} with ubiquitin_tagged=True"))
+                v.append(("obs:heal-valid-result-tagged-for-degradation", f"outcome {oc.value} with ubiquitin_tagged=True"))
             if not (0.0 <= result.final_confidence <= 1.0):
-                v.append(("heal-confidence-out-of-range", f"final_confidence={result.final_confidence}"))
+                v.append(("obs:heal-confidence-out-of-range", f"final_confidence={result.final_confidence}"))
         else:
             if oc != HealingOutcome.DEGRADED:
                 v.append(("heal-unknown-outcome", repr(oc)))
